@@ -38,7 +38,7 @@ type FaultSpec struct {
 	Service string `json:"service"`
 	From    int    `json:"from"`
 	Count   int    `json:"count"`
-	Kind    string `json:"kind"` // transport | timeout | gqlerrors | gqlerrors+data | gqlerrors+null | node-null | empty | wrong-shape
+	Kind    string `json:"kind"` // transport | timeout | blank-error | empty-errors | gqlerrors | gqlerrors+data | gqlerrors+null | node-null | empty | wrong-shape
 	// MatchID, when set, selects calls by their join id instead of by arrival order ("root" = calls without one)
 	MatchID string `json:"match_id,omitempty"`
 	// Path (kinds join-*): response keys from the call's own payload root (below "node" for a follow-up call) to
